@@ -343,12 +343,41 @@ _R_BIN = {
 _R_REL = {"lt": sp.Lt, "le": sp.Le, "gt": sp.Gt, "ge": sp.Ge, "eq": sp.Eq}
 
 
+DIVISORS = [None]      # DIVISORS[0] is a list while a claim records the divisors the code executes
+
+
+class record_divisors:
+    """Context manager: collect every divisor (x/d, d**-k, tan -> cos) executed in the R domain."""
+
+    def __enter__(self):
+        self.old = DIVISORS[0]
+        DIVISORS[0] = []
+        return DIVISORS[0]
+
+    def __exit__(self, *exc):
+        DIVISORS[0] = self.old
+        return False
+
+
 class RSym(Sym):
     __slots__ = ()
     const = staticmethod(exact)
 
     @staticmethod
     def _op(name, *a):
+        log = DIVISORS[0]
+        if log is not None:
+            if name == "div":
+                if not a[1].is_number:
+                    log.append(a[1])
+            elif name == "pow":
+                if a[1].is_number and a[1].is_negative and not a[0].is_number:
+                    log.append(a[0])
+            elif name == "tan":
+                log.append(sp.cos(a[0]))
+            elif name == "mod":
+                if not a[1].is_number:
+                    log.append(a[1])
         f = _R_UN.get(name) if len(a) == 1 else _R_BIN.get(name)
         return f(*a)
 
